@@ -11,6 +11,7 @@ Requests
   c18.decomp HASCMD SPAWNOK OPENOK SEARCH CLOSE                -> reader:<command|passthru|openerror> ok|err
   c18.select (cfg STDIN PRE ZIP RECOGNISED) (globs (NEG HIT)…) -> model STRATEGY spec STRATEGY
   c18.recognised HEXNAME                                       -> 0|1   some default decompression rule matches the file name
+  c18.command HEXNAME                                          -> program and arguments of the matching decompression rule | -
   c18.pipes K ASYNC (prog 0|1 …) (sched CHOICE…)               -> prog N out N err N closed B done B canstep B
      CHOICE = c (child) | k (child killed by SIGPIPE) | rN (read N) | x (close) | dN (drain N)
 WAIT = ok | fail | waiterr; STDERR = hex bytes | ioerr
@@ -115,6 +116,13 @@ def handle (cmd : String) (args : List Sx) : String :=
   | "c18.recognised", [name] =>
     match name.bytes? with
     | some bs => b (recognisedName (String.ofList (bs.map Char.ofNat)))
+    | none => "bad-op"
+  | "c18.command", [name] =>
+    match name.bytes? with
+    | some bs =>
+      match decompCommand (String.ofList (bs.map Char.ofNat)) with
+      | some cmd => " ".intercalate cmd
+      | none => "-"
     | none => "bad-op"
   | "c18.pipes", [k, a, .list (.atom "prog" :: ps), .list (.atom "sched" :: cs)] =>
     match k.nat?, a.bool?, ps.mapM Sx.bool?, cs.mapM (fun x => x.atom? >>= parseChoice) with
